@@ -33,11 +33,11 @@ def sh(cmd, cwd=wt, timeout=5400, e=env):
 
 
 def clean():
-    sh("git reset -q --hard HEAD ; git clean -fdq -e out -e target -e SEED_TASK.md")
+    sh("git reset -q --hard HEAD ; git clean -fdq -e out -e target -e target-v -e 'SEED_TASK*'")
 
 
 # the harness at /verif HEAD needs the hooks of /repo HEAD: judge every change on /repo's HEAD
-sh("git reset -q --hard HEAD; git clean -fdq -e out -e target -e SEED_TASK.md; "
+sh("git reset -q --hard HEAD; git clean -fdq -e out -e target -e target-v -e 'SEED_TASK*'; "
    "git checkout -q --detach $(git -C /repo rev-parse HEAD)")
 print(f"worktree {wt} at", sh("git rev-parse --short HEAD")[1].strip(), flush=True)
 
